@@ -69,6 +69,7 @@ type c13Case struct {
 	Sep   string     `json:"sep"`
 	Cut   int        `json:"cut"`  // >0: the stream ends after this many bytes
 	DLen  int        `json:"dlen"` // announced header length = real length + DLen
+	Pre   string     `json:"pre"`  // what happened to the payload after a first (failed) transmission: "remove:i", "split:k:head|tail"
 }
 
 func fileData(i int, size int64) []byte {
@@ -118,6 +119,41 @@ func c13Run(c c13Case) (viol string) {
 		ch := &chunk{memFile: files[p.File], beg: p.Beg, end: p.End}
 		if !bin.Add(ch) || !ch.IsAllocated() {
 			return fmt.Sprintf("harness: part %v did not fit into the bin", p)
+		}
+	}
+	if c.Pre != "" {
+		// a first transmission attempt: header encoded, body read
+		if _, err := bin.EncodeHeader(); err != nil {
+			return "EncodeHeader: " + err.Error()
+		}
+		_, _ = io.Copy(io.Discard, bin.GetEncoder())
+		f := strings.Split(c.Pre, ":")
+		var k int
+		fmt.Sscan(f[1], &k)
+		switch f[0] {
+		case "remove": // the file of part k changed: client.startSend drops it from the payload
+			bin.Remove(bin.GetParts()[k])
+		case "split": // the receiver reported k leading parts: client.handleSendError splits
+			tail := bin.Split(k)
+			if f[2] == "tail" {
+				if tail == nil {
+					return ""
+				}
+				bin = tail
+			}
+		}
+		// what the payload holds now is what has to arrive
+		c.Parts = nil
+		for _, b := range bin.GetParts() {
+			beg, n := b.GetSlice()
+			for i, mf := range files {
+				if mf.name == b.GetName() {
+					c.Parts = append(c.Parts, partSpec{File: i, Beg: beg, End: beg + n})
+				}
+			}
+		}
+		if len(c.Parts) == 0 {
+			return ""
 		}
 	}
 	header, err := bin.EncodeHeader()
@@ -351,6 +387,25 @@ func TestC13(t *testing.T) {
 			}
 		}
 	}
+	// a payload that is transmitted again after parts were removed from it or after it was split
+	for _, seq := range seqs {
+		if len(seq) != 3 {
+			continue
+		}
+		off := []int64{0, 0}
+		var c c13Case
+		for i, l := range seq {
+			c.Parts = append(c.Parts, partSpec{File: i % 2, Beg: off[i%2], End: off[i%2] + l})
+			off[i%2] += l
+		}
+		c.Sizes = []int64{off[0], off[1] + 1}
+		c.Names, c.Buf, c.Gzip, c.Sep = nameSets[0], 4096, -1, "/"
+		for _, pre := range []string{"remove:0", "remove:1", "remove:2", "split:1:head", "split:1:tail", "split:2:head", "split:2:tail"} {
+			cc := c
+			cc.Pre = pre
+			run(cc)
+		}
+	}
 	// every truncation point of one 3-part payload, and header lengths that are off
 	base := c13Case{Names: nameSets[0], Sizes: []int64{20, 9}, Parts: []partSpec{{0, 3, 10}, {1, 0, 8}, {0, 10, 20}}, Buf: 4096, Gzip: -1, Sep: "/"}
 	for cut := 1; cut < 420; cut++ {
@@ -365,7 +420,7 @@ func TestC13(t *testing.T) {
 			run(cc)
 		}
 	}
-	rep.Bound = fmt.Sprintf("every payload of 1-3 parts with part lengths from {1,2,7,8192,8193} in two layouts (consecutive middle slices of one file; slices alternating between two files, at the start and reaching the end), read through buffers of 1/3/4096/32768 bytes, plain and gzip levels %v, separators none / '/' / '\\\\', names with spaces, unicode, ':' and the other separator, times with nanoseconds; every truncation point of one 3-part payload; announced header lengths off by -40..+40", gz)
+	rep.Bound = fmt.Sprintf("every payload of 1-3 parts with part lengths from {1,2,7,8192,8193} in two layouts (consecutive middle slices of one file; slices alternating between two files, at the start and reaching the end), read through buffers of 1/3/4096/32768 bytes, plain and gzip levels %v, separators none / '/' / '\\\\', names with spaces, unicode, ':' and the other separator, times with nanoseconds; every 3-part payload transmitted a second time after one part was removed from it or after it was split behind part 1 or 2; every truncation point of one 3-part payload; announced header lengths off by -40..+40", gz)
 }
 
 func c13Class(c c13Case, v string) string {
